@@ -24,6 +24,19 @@ def models(torch, rng, n):
     base.append(("shared_storage", {"full": shared, "view": shared[2:5], "again": shared, "other": shared.clone()}))
     lin = nn.Linear(2, 2)
     base.append(("tied_weights", {"m1": lin, "m2": lin}))
+    w, b, hh = torch.ones(2, 2), torch.zeros(2), torch.arange(3)
+    base += [
+        ("tuple_dict_list", ({"weight": w, "bias": b}, [hh])),
+        ("tuple_list_dict_tensor", ([w, b], {"half": hh}, w.clone())),
+        ("tuple_single_dict", ({"only": w},)),
+        ("tuple_nested", (({"deep": w},), [b])),
+        ("tuple_four", ({"a": w}, [b], hh, "tail")),
+        ("list_root", [{"weight": w}, (b, hh)]),
+        ("tuple_tensor_first", (w, {"d": b})),
+        ("dict_of_tuples", {"pair": ({"x": w}, [b]), "n": (1, 2, 3)}),
+        ("set_and_frozenset", {"s": {1, 2}, "f": frozenset({3}), "t": w}),
+        ("ordered_dict_root", __import__("collections").OrderedDict([("z", w), ("a", [b])])),
+    ]
     for lab, obj in base:
         yield lab, obj
     for i in range(n):
@@ -51,6 +64,8 @@ def equal_models(torch, a, b, _seen=None):
         return isinstance(b, dict) and list(a.keys()) == list(b.keys()) and all(equal_models(torch, a[k], b[k]) for k in a)
     if isinstance(a, (list, tuple)):
         return type(a) is type(b) and len(a) == len(b) and all(equal_models(torch, x, y) for x, y in zip(a, b))
+    if isinstance(a, (set, frozenset)):
+        return type(a) is type(b) and a == b
     return type(a) is type(b) and a == b
 
 
